@@ -38,7 +38,12 @@ Definition st_getslice_msb0 (s : store) (start stop : option Z) : res bits :=
 Definition st_getslice_withstep_msb0 (s : store) (k : pyslice) : res bits :=
   match mlen s with
   | Some n => do3 (a, b, c) <- slice_indices k n;
-              seq_slice false (raw s) (mkslice (Some a) (Some b) (Some c))
+              (* for a negative step indices() uses -1 for 'before the first bit' (fix D40) *)
+              if c <? 0 then
+                if a <? 0 then seq_slice false (raw s) (mkslice (Some 0) (Some 0) (Some c))
+                else if b <? 0 then seq_slice false (raw s) (mkslice (Some a) None (Some c))
+                else seq_slice false (raw s) (mkslice (Some a) (Some b) (Some c))
+              else seq_slice false (raw s) (mkslice (Some a) (Some b) (Some c))
   | None => seq_slice false (raw s) k
   end.
 (* methods that use the raw buffer *)
